@@ -413,6 +413,51 @@ func runC03Exclusive(p *Prog, r *Report) {
 		}
 	}
 	r.Floor("R5", "framing installation sites in SetContentLength", n, 4)
+	// the generic setter path: Set("Content-Length", "5") installs a numeric Content-Length as well
+	m := 0
+	for _, typ := range []string{"ResponseHeader", "RequestHeader"} {
+		fn := p.Func("(*" + typ + ").setSpecialHeader")
+		if fn == nil || del == nil {
+			r.Undecided("R5", typ+".setSpecialHeader", "not found")
+			continue
+		}
+		delTE := func(in ssa.Instruction) bool {
+			c, ok := in.(*ssa.Call)
+			if !ok || !isCallTo(c, del) {
+				return false
+			}
+			s, ok := stringConst(c.Call.Args[1])
+			return ok && strings.EqualFold(s, "Transfer-Encoding")
+		}
+		for _, b := range fn.Blocks {
+			for _, in := range b.Instrs {
+				st, ok := in.(*ssa.Store)
+				if !ok {
+					continue
+				}
+				if _, fv := fieldOfAddr(st.Addr); fv == nil || fv.Name() != "contentLengthBytes" {
+					continue
+				}
+				if _, isCall := st.Val.(*ssa.Call); !isCall {
+					continue // a truncation, not an installation
+				}
+				m++
+				// the removal may come before or after the store, but on every path of this case
+				hit, path := reachAvoiding(fn, st, isReturn, delTE, nil)
+				before := false
+				for _, bb := range fn.Blocks {
+					for _, i2 := range bb.Instrs {
+						if delTE(i2) && dominatesInstr(i2, st) && i2.Block() == st.Block() {
+							before = true
+						}
+					}
+				}
+				r.Check("R5", typ+".setSpecialHeader: a Content-Length installed through the generic setter removes Transfer-Encoding on every path", hit == nil || before, p.Pos(st.Pos()),
+					"Set(\"Content-Length\", n) on a message whose body stream of unknown size installed 'Transfer-Encoding: chunked' leaves that entry in place: the message goes out with both framing headers and a raw body of n bytes, which a peer reads as (broken) chunks", blocksString(p, path)...)
+			}
+		}
+	}
+	r.Floor("R5", "Content-Length installations in setSpecialHeader", m, 2)
 }
 
 // runC03ChunkMarker (R6): in chunked framing a zero-length chunk is the
